@@ -567,6 +567,7 @@ func genStageCache(r *Rand) []string {
 			ops = append(ops, fmt.Sprintf("settle %d", tick()))
 		}
 	}
+	reused := ""
 	if r.Chance(0.5) {
 		// a NEW version of a name whose earlier delivery is known only from the log is partly received, its
 		// partial goes stale (sender stalled for more than a day) and the stray cleaner runs: only a partial of
@@ -574,6 +575,7 @@ func genStageCache(r *Rand) []string {
 		o := olds[r.Intn(len(olds))]
 		g := genFile(r, o.f.name, "")
 		g.renamed = o.f.renamed
+		reused = o.f.name
 		if r.Chance(0.25) {
 			// the delivered version itself: a stale duplicate, may be removed. The sender asks before it sends
 			// (Receive itself consults only the in-memory cache: hypothesis S8)
@@ -593,10 +595,29 @@ func genStageCache(r *Rand) []string {
 			b, e := g.cuts[k], g.cuts[k+1]
 			ops = append(ops, fmt.Sprintf("recv %s %d %d %s %d", g.meta(), b, e, tokOrDash(g.body[b:e]), tick()))
 		}
+		if g != o.f && r.Chance(0.5) {
+			// ... and fails its validation (staged bytes overwritten)
+			ops = append(ops, fmt.Sprintf("corrupt %s full 0 %d", esc(g.name), r.Range(251, 255)))
+		}
 		ops = append(ops, fmt.Sprintf("settle %d", tick()), "observe")
+		if g != o.f {
+			// the new version is polled with a fresh and then with an old reference time (a restarted sender polls
+			// with the file's mtime; the data-recovery route asks about any old file): extending the cache backwards
+			// over the OLD record of that name must not change what is known about the version in the pipeline
+			ops = append(ops, fmt.Sprintf("status %s 0 %d", esc(g.name), tick()))
+			if r.Chance(0.5) {
+				p := olds[r.Intn(len(olds))]
+				ops = append(ops, fmt.Sprintf("received %s %s %s %s %d 0 %d %d", esc(p.f.name), esc(p.f.renamed), esc(p.f.prev), esc(p.f.hash), -(p.age + 1000), p.f.cuts[1], tick()))
+			}
+			ops = append(ops, fmt.Sprintf("status %s %d %d", esc(g.name), -(o.age + 1000), tick()), fmt.Sprintf("status %s 0 %d", esc(g.name), tick()))
+		}
 	}
-	// the sender retransmits an old delivery (it asks first, as handleSendError / recover do)
+	// the sender retransmits an old delivery (it asks first, as handleSendError / recover do); not of a name of
+	// which another version arrived meanwhile (a version that comes back after a different one is a new delivery)
 	o := olds[r.Intn(len(olds))]
+	if o.f.name == reused {
+		return ops
+	}
 	ft := -(o.age + 50)
 	ops = append(ops, fmt.Sprintf("received %s %s %s %s %d 0 %d %d", esc(o.f.name), esc(o.f.renamed), esc(o.f.prev), esc(o.f.hash), ft, o.f.cuts[1], tick()))
 	ops = append(ops, fmt.Sprintf("prepare %s %d %d", esc(o.f.name), len(o.f.body), tick()))
